@@ -84,8 +84,13 @@ def naive_str(p):
     return str(p.tz_localize(None) if p.tzinfo is not None else p)
 
 
-def gen_window(rng, g, kinds=None):
-    """A [start,end) window relative to the horizon. -> (start_str|None, end_str|None, placement)"""
+OFFGRID = 0.0      # probability that a generated window bound is moved off the grid raster (drivers whose oracles read windows point-wise set it)
+
+
+def gen_window(rng, g, kinds=None, offgrid=None):
+    """A [start,end) window relative to the horizon. -> (start_str|None, end_str|None, placement)
+    offgrid: probability of moving each bound by a fraction of a step, so that it falls strictly between two grid points."""
+    offgrid = OFFGRID if offgrid is None else offgrid
     pts = grid_points(g)
     T = len(pts)
     d = fdelta(g['freq']) if not g['freq'].endswith('d') else pd.Timedelta(days=int(to_offset(g['freq']).n))
@@ -116,6 +121,20 @@ def gen_window(rng, g, kinds=None):
             i = int(rng.integers(0, T)); s = loc[i]; e = loc[i]
         else:
             continue
+        if offgrid > 0 and not g['freq'].endswith('d'):
+            # (sub-daily grids only: fractions of a calendar day are not well defined across clock changes)
+            if k in ('empty', 'before', 'after'):
+                # the placement is kept: both bounds move together, away from the horizon
+                if rng.random() < offgrid:
+                    sh = d * float(pick(rng, [0.5, 0.25, 0.75])) * (-1 if k == 'before' else 1)
+                    s = s + sh; e = e + sh
+            else:
+                if s is not None and rng.random() < offgrid:
+                    s = s + d * float(pick(rng, [0.5, 0.25, 0.75, -0.5]))
+                if e is not None and rng.random() < offgrid:
+                    e = e + d * float(pick(rng, [0.5, 0.25, -0.25, -0.5]))
+                if s is not None and e is not None and e < s:
+                    continue
         if (s is not None and not local_ok(str(s), tz)) or (e is not None and not local_ok(str(e), tz)):
             continue
         return (None if s is None else str(s)), (None if e is None else str(e)), k
